@@ -239,6 +239,9 @@ def op_line(op) -> str:
         return f"{n} {app} {csv(types)} {opt(prio)} {order_token(order)} {filter_token(flt)}"
     if n == "gc":
         return "gc"
+    if n == "delv":                                     # C13 round 5: LDMMaintenance.del_provider_data(container)
+        _, app, ts, loc, validity, objser = op
+        return f"delv {app} {ts} {loc_tokens(loc)} {validity} {objser}"
     if n == "adv":
         return f"adv {op[1]}"
     if n == "sub":
@@ -458,6 +461,17 @@ class RealLdm:
             return " ".join(["ok"] + [ser_record(o) for o in r.data_objects])
         if n == "gc":
             self.ldm.ldm_maintenance.collect_trash()
+            return "-"
+        if n == "delv":
+            # C13 round 5: removal BY VALUE, as the maintenance passes do it: `del_provider_data(container)` with the
+            # container in the form the back-end returns it (what add_provider_data stored; its JSON image on TinyDB)
+            _, app, ts, loc, validity, objser = op
+            cont = K.AddDataProviderReq(app, K.TimestampIts(ts), real_location(loc), deser(objser),
+                                        K.TimeValidity(validity)).to_dict()
+            if self.backend == "TinyDB":
+                import json
+                cont = json.loads(json.dumps(cont))
+            self.ldm.ldm_maintenance.del_provider_data(cont)
             return "-"
         if n == "adv":
             if op[1] % 125:
